@@ -1027,6 +1027,15 @@ class FieldOrigins:
                 return set()
             out = set()
             for g in em.cg.resolve_callable(f, e.func):
+                if g.module.name == 'engine' and g.is_generator and ('gen', g) not in seen:
+                    # a generator that hands on the elements of a list while it is suspended is a walk over that list
+                    seen.add(('gen', g))
+                    for y in own_nodes(g.node):
+                        if isinstance(y, ast.YieldFrom):
+                            out |= self.of(g, y.value, depth + 1, seen)
+                        if isinstance(y, ast.For) and any(isinstance(z, ast.Yield) for b in y.body for z in ast.walk(b)):
+                            out |= self.of(g, y.iter, depth + 1, seen)
+                    continue
                 if g.module.name != 'engine' or g.is_generator or g.name == '__init__':
                     continue
                 key = ('ret', g)
@@ -1076,6 +1085,13 @@ def rule_walked_lists_never_changed_in_place(em, rep, rid):
                 flds = fo.of(f, s_.iter)
                 if flds:
                     walks.append((f, s_, flds))
+            if isinstance(s_, ast.Expr) and isinstance(s_.value, ast.YieldFrom):
+                flds = fo.of(f, s_.value.value)
+                if flds and not (isinstance(s_.value.value, ast.Call) and any(
+                        g.is_generator for g in em.cg.resolve_callable(f, s_.value.value.func))):
+                    # yield from <list out of engine state>: suspended between two elements of that list
+                    s_.iter = s_.value.value
+                    walks.append((f, s_, flds))
     muts = []
     for f in em.repo.all_functions(('engine',)):
         for x in own_nodes_ordered(f.node):
@@ -1092,6 +1108,42 @@ def rule_walked_lists_never_changed_in_place(em, rep, rid):
             if flds:
                 muts.append((f, x, flds))
     rep.minimum('suspendable walks over engine state', len(walks), 1)
+    # objects that stand in for a list: a class of the engine that is iterable through __iter__/__getitem__ over a field which
+    # another of its methods re-binds or changes is a *live view* - a loop over it sees every later change
+    live = {}
+    for k_ in em.repo.all_classes(('engine',)):
+        readers = [k_.methods[m] for m in ('__getitem__', '__iter__') if m in k_.methods]
+        if not readers:
+            continue
+        read = {x.attr for r_ in readers for x in own_nodes(r_.node) if isinstance(x, ast.Attribute) and is_name(x.value, r_.params[0]) and isinstance(x.ctx, ast.Load)}
+        for m in k_.methods.values():
+            if m.name == '__init__':
+                continue
+            for x in own_nodes(m.node):
+                tgt = None
+                if isinstance(x, ast.Attribute) and isinstance(x.ctx, ast.Store) and is_name(x.value, m.params[0] if m.params else 'self'):
+                    tgt = x.attr
+                elif isinstance(x, ast.Call) and isinstance(x.func, ast.Attribute) and x.func.attr in _MUTATORS and \
+                        isinstance(x.func.value, ast.Attribute) and is_name(x.func.value.value, m.params[0] if m.params else 'self'):
+                    tgt = x.func.value.attr
+                if tgt in read:
+                    live[k_.name] = (k_, m, tgt)
+    if live:
+        for f, s_, wf in walks:
+            for g in em.repo.all_functions(('engine',)):
+                for x in own_nodes_ordered(g.node):
+                    val = None
+                    if isinstance(x, ast.Assign) and any(isinstance(t, ast.Subscript) and is_self_attr(t.value) and t.value.attr in wf for t in x.targets):
+                        val = x.value
+                    elif isinstance(x, ast.Call) and isinstance(x.func, ast.Attribute) and x.func.attr == 'setdefault' and \
+                            is_self_attr(x.func.value) and x.func.value.attr in wf and len(x.args) > 1:
+                        val = x.args[1]
+                    if isinstance(val, ast.Call) and is_name(val.func) and val.func.id in live:
+                        k_, m, tgt = live[val.func.id]
+                        rep.violation(rid, '%s:for %s:live view' % (f.qname, norm(s_.iter)[:30]), 'this suspendable loop may walk a %s object '
+                                      'held in self.%s: it is iterated through %s over its field %s, which %s re-binds - the loop follows '
+                                      'every change made while it is suspended instead of the facts as they were when it started'
+                                      % (k_.name, ', self.'.join(sorted(wf)), '/'.join(r_ for r_ in ('__getitem__', '__iter__') if r_ in k_.methods), tgt, m.qname), f.loc(s_))
     bad = 0
     for f, s_, wf in walks:
         hit = [(g, x, mf) for g, x, mf in muts if wf & mf]
